@@ -27,7 +27,8 @@ TClose == /\ Is("close") /\ UNCHANGED <<ivs, uses>>
              ELSE ~Ev.ok /\ Ev.lockAfter = (owner # 0) /\ Ev.dirSame /\ UNCHANGED <<owner, state>>
 \* an operation on a handle succeeds iff the handle is open; on a closed handle it fails cleanly (no panic); an operation without
 \* a result (TriggerCompaction: void) must simply return
-TUse == Is("use") /\ UNCHANGED <<owner, state, ivs, uses>> /\ ~Ev.panic /\ (Ev.void \/ Ev.ok = (Get(state, Ev.h) = "open"))
+TUse == Is("use") /\ UNCHANGED <<owner, state, ivs, uses>> /\ ~Ev.panic
+        /\ (Ev.void \/ Ev.ok = (Get(state, Ev.h) = "open") \/ (Ev.lenient /\ Get(state, Ev.h) = "open"))   \* lenient: may also fail on an open handle
 \* a second operating-system process: refused while owned, succeeds (and closes again) otherwise
 TProc == Is("proc") /\ UNCHANGED <<owner, state, ivs, uses>> /\ Ev.ok = (owner = 0) /\ (~Ev.ok => Ev.dirSame)
 
